@@ -31,6 +31,23 @@ CHECKS['C04'] = ('exploration',
     'Validity is judged by harness/refninja.py (no ninja binary in the sandbox), self-tested on the Ninja manual examples; Linux output naming assumed for reachability lookups.',
     'DESIGN.md 3/C04')
 
+CHECKS['C05'] = ('exploration',
+    'Hypothesis project models -> real meson setup -> build.ninja executed by an independent Ninja implementation under harness-owned schedules; hermetic per-edge replay with only declared ancestors present; digest comparison',
+    'For each generated project (generated headers really #included, custom-target chains via input:/depends:, generators, link_with/link_whole, built tools) the real '
+    'build.ninja is executed: a reference build, then EVERY non-phony statement is re-run with all build outputs that are not outputs of its declared ancestors moved '
+    'away (decides the for-all-schedules quantifier under a monotonicity assumption), gcc depfiles are cross-checked against declared ancestors, and random / producers-last / '
+    'reverse-declaration / consumers-first orders and parallel waves must all succeed with identical artifact digests. Sampled projects; per project every edge is replayed.',
+    'Executes build.ninja with harness/refninja.py (no ninja binary); assumes steps are monotone in the set of present files and tools are deterministic at fixed paths.',
+    'DESIGN.md 3/C05')
+CHECKS['C03'] = ('exploration',
+    'Hypothesis argument strings in every command position -> real meson setup -> ninja expansion by an independent implementation -> /bin/sh / pickled wrapper / real meson test; argv recorded by a dumper vs the build definition after the four documented rewrites',
+    'Generated argument strings rich in shell/ninja/response-file metacharacters are placed in custom_target (plain, capture, feed, env, newline => pickled wrapper, && separator), '
+    'run_target, generator, test() args/env, per-target c_args/-D/link_args, project and global arguments, with and without response files; the generated statements are expanded by '
+    'an independent Ninja implementation and really executed through /bin/sh (tests through real `meson test`), and the argv/env/stdin recorded by the executed program must equal the '
+    'build definition after exactly the documented rewrites (backslash->slash in custom commands, && separation, backslash doubling in per-target -D). Sampled.',
+    'POSIX branch only (shlex quoting, gcc response-file syntax); ninja de-quoting by harness/refninja.py; gcc @file parsing by a reference implementation of the documented rules.',
+    'DESIGN.md 3/C03')
+
 NOT_YET = 'no check is registered for this property in this revision (see DESIGN.md section 8 for status)'
 
 
